@@ -40,6 +40,10 @@ def mksignal(d):
     multiplex = "Multiplexor" if is_muxer else mux_val
     s = cm.Signal(name, start_bit=start, size=size, is_little_endian=little, is_signed=signed, is_float=is_float,
                   multiplex=multiplex)
+    if not little and size > 0 and (start + size) % 3 == 0:
+        # a Motorola signal placed the way a DBC reader does it: by the number of its most significant bit in the file's numbering
+        s.start_bit = 0
+        s.set_startbit(sig_addrs(False, start, size)[-1], bitNumbering=1)
     s.mux_val_grp = [list(r) for r in grp]
     s.muxer_for_signal = muxer_for
     if is_muxer and mux_val is not None:
@@ -50,6 +54,8 @@ def mksignal(d):
 
 def mkframe(fd, name="F", arbid=0x123, extended=False):
     fr = cm.Frame(name, arbitration_id=cm.ArbitrationId(arbid, extended), size=fd["size"])
+    if fd["size"] > 8:
+        fr.is_fd = True          # a CAN FD frame; its declared length need not be one of the DLC steps
     for d in fd["sigs"]:
         fr.add_signal(mksignal(d))
     if fd.get("sc"):
